@@ -123,9 +123,9 @@ def configs(tier):
                     out.append(dict(cascade=(k, m, extra)))
     # inverted-output shortcuts of a COMBINATIONAL block inside long chains: src -> x -> '_not_x'
     # -> u1 .. uN, some of the u's tapping '_not_x' a second time; paths within 3 x blocks
-    for n in (6, 12, 20):
-        cand = list(range(2, n, 2 if n < 20 else 3))
-        for k in range(0, 5):
+    for n in (6, 12, 20, 30, 48, 90, 200):
+        cand = list(range(2, n, 2 if n < 20 else 3 if n == 20 else 7 if n < 90 else 31))
+        for k in range(0, 5 if n <= 20 else 2):
             for taps in itertools.combinations(cand, k):
                 nblocks = n + 3
                 paths = 2 + sum(1 + sum(1 for t in taps if t <= i) for i in range(1, n + 1))
@@ -392,10 +392,12 @@ def run_notchain(cfg, acc):
                     await sim.circuit.wait_init()
                 except edzed.EdzedInvalidState:
                     pass
-                for val in (first, not first, first):
+                for step, val in enumerate((first, first, not first, first)):
                     if not task.done() and src.output != val:
                         edzed.ExtEvent(src).send(val)
-                    await sim.loop.idle()
+                    if step:
+                        # (step 0: the moment wait_init() returned - the first evaluation is complete)
+                        await sim.loop.idle()
                     if task.done():
                         viol.append(('stable-network-aborted',
                                      f"chain of {n} blocks behind '_not_x' (taps {taps}), order {order}, "
@@ -410,9 +412,12 @@ def run_notchain(cfg, acc):
                         exp.append(cur)
                     got = [u.output for u in us]
                     if got != exp:
+                        bad = next(i for i in range(n) if got[i] != exp[i])
                         viol.append(('idle-but-inconsistent',
-                                     f"chain behind '_not_x' (n={n}, taps {taps}), src={val}: {got}, "
-                                     f"expected {exp}"))
+                                     f"chain behind '_not_x' (n={n}, taps {taps}), order {order}, src={val}, "
+                                     f"{'at the moment wait_init() returned' if not step else 'idle'}: "
+                                     f"u{bad + 1} outputs {got[bad]!r}, expected {exp[bad]!r} "
+                                     f"({sum(1 for g, e in zip(got, exp) if g != e)} of {n} blocks differ)"))
                         break
                 await stop(sim.circuit)
                 task.exception() if task.done() and not task.cancelled() else None
